@@ -37,5 +37,21 @@ pub fn verif_skip_graphemes(s: &str, prefix: usize) -> (r: String) ensures r@ ==
 //@rewrite <<<&line[prefix..]>>> => <<<verif_str_after_ascii_prefix(line, prefix)>>>
 //@rewrite <<<line.graphemes(true).skip(prefix).collect::<String>()>>> => <<<verif_skip_graphemes(line, prefix)>>>
 
+// hunk.rs new_line_state: the marker columns of a line of a combined diff; when they end inside a character the line is
+// "not a hunk line" (it is passed on), never an out-of-range slice
+/// (R3) `s.get(..n)`: "Returns None if the range is out of bounds or does not lie on character boundaries" (n <= len is an obligation here)
+#[verifier::external_body]
+pub fn verif_str_get_to<'a>(s: &'a str, n: usize) -> (r: Option<&'a str>)
+    requires n <= s.spec_bytes().len(),
+    ensures r is Some == is_char_boundary(s.spec_bytes(), n as int),
+{ unimplemented!() }
+//@ region src/handlers/hunk.rs new_line_state
+//@sig pub fn combined_marker_columns_region<'a>(new_line: &'a str, n_parents: usize) -> (r: Option<&'a str>)
+//@from <<<let prefix =>>>
+//@until <<<let prefix_char = match prefix.chars().find(>>>
+//@tail Some(prefix)
+//@| ensures r is Some == is_char_boundary(new_line.spec_bytes(), (if n_parents <= new_line.spec_bytes().len() { n_parents as int } else { new_line.spec_bytes().len() as int })),  // @C03:the.marker.columns.of.a.combined.diff.line.are.taken.only.when.they.end.on.a.character.boundary
+//@rewrite <<<new_line.get(..min(n_parents, new_line.len()))>>> => <<<verif_str_get_to(new_line, min(n_parents, new_line.len()))>>>
+
 } // verus!
 fn main() {}
